@@ -141,6 +141,8 @@ pub(crate) fn registry_of(f: impl FnOnce(&mut TypeGen) -> crux_core::typegen::Re
     let r = match gen.state {
         State::Registering(tracer, _) => tracer.registry().map_err(|e| format!("{e}: {}", e.explanation()))?,
         State::Generating(r) => r,
+        #[allow(unreachable_patterns)]
+        _ => return Err("TypeGen is in a state this harness does not know".to_string()),
     };
     codec::schema_of(&r)
 }
